@@ -5,7 +5,8 @@ type lookup struct {
 	indexToKey []string
 	data       []Value
 	cap        int
-	posNames   *lookup // file and function names of instruction positions (16-bit indices of their own)
+	posNames   *lookup         // file and function names of instruction positions (16-bit indices of their own)
+	compiled   map[string]bool // names of the functions compiled against this table
 }
 
 // names returns the table of the names used by instruction positions
